@@ -12,12 +12,23 @@ struct nni_id_entry {
 	uint32_t skips;
 	void    *val;
 };
+/* tables come from a static, typed pool: values read back from a calloc'd
+ * table reach symex as byte_extract expressions, i.e. never as constants, and a
+ * non-constant context pointer makes every intrusive-list test symbolic */
+#define ENV_IDMAP_POOL 4
+static nni_id_entry env_pool[ENV_IDMAP_POOL][ENV_IDMAP_MAX];
+static int          env_pool_used;
 static nni_id_entry *
 env_tab(nni_id_map *m)
 {
 	if (m->id_entries == NULL) {
-		m->id_entries = calloc(ENV_IDMAP_MAX, sizeof(nni_id_entry));
-		ASSUME(m->id_entries != NULL);
+		CHECK(env_pool_used < ENV_IDMAP_POOL, "env_idmap: pool large enough");
+		ASSUME(env_pool_used < ENV_IDMAP_POOL);
+		m->id_entries = env_pool[env_pool_used++];
+		for (int i = 0; i < ENV_IDMAP_MAX; i++) {
+			m->id_entries[i].key = 0;
+			m->id_entries[i].val = NULL;
+		}
 		m->id_cap = ENV_IDMAP_MAX;
 	}
 	return m->id_entries;
@@ -41,7 +52,6 @@ void
 nni_id_map_fini(nni_id_map *m)
 {
 	if (m->id_entries != NULL) {
-		free(m->id_entries);
 		m->id_entries = NULL;
 		m->id_count   = 0;
 	}
